@@ -80,7 +80,8 @@ T make_rep(mpz_class const& z)
 }
 
 // draw a value of `digits` value-bits (plus sign if is_signed) as mpz, from words, boundary-rich
-inline mpz_class draw_mpz(Words& w, int digits, bool is_signed)
+// with_lowest: the type is two's complement, so -(2^digits) is a value too (drawn as a special and as the power of two 2^digits)
+inline mpz_class draw_mpz(Words& w, int digits, bool is_signed, bool with_lowest = false)
 {
     std::uint64_t c = w.next();
     unsigned cls = unsigned(c % 100);
@@ -90,13 +91,14 @@ inline mpz_class draw_mpz(Words& w, int digits, bool is_signed)
     bool neg = is_signed && ((r & 1) != 0);
     r >>= 1;
     if (cls < 15) {
-        switch (r % 6) {
+        switch (r % (with_lowest ? 7 : 6)) {
         case 0: v = 0; break;
         case 1: v = 1; break;
         case 2: v = max; break;
         case 3: v = max - 1; break;
         case 4: v = 2; break;
-        default: v = max >> 1; break;
+        case 5: v = max >> 1; break;
+        default: v = neg ? mpz_class(max + 1) : max; break;
         }
     } else if (cls < 40) {
         int k = int(r % (unsigned(digits) + 1));
@@ -123,7 +125,7 @@ inline mpz_class draw_mpz(Words& w, int digits, bool is_signed)
         }
     }
     if (v < 0) v = 0;
-    if (v > max) v = max;
+    if (v > max) v = (with_lowest && neg && v == max + 1) ? v : max;
     return neg ? mpz_class(-v) : v;
 }
 
